@@ -150,17 +150,25 @@ pub fn hsweep_case(ctx: &Ctx, t: &[&str]) -> String {
     out.push_str("tags=");
     {
         let mut it = hd.iter();
+        let mut n = 0usize;
         loop {
             match guarded(|| it.next()) {
                 Err(()) => {
-                    out.push_str("|panic");
+                    match probe_panicked(|| hd.iter(), |t| t as *const _ as *const u8 as usize, n) {
+                        None => out.push_str("|panic"),
+                        Some(w) => write!(out, "|probe:{}", w).unwrap(),
+                    }
                     break;
                 }
                 Ok(None) => {
-                    out.push_str("|done");
+                    match probe(|| hd.iter(), |t| t as *const _ as *const u8 as usize, n, true) {
+                        None => out.push_str("|done"),
+                        Some(w) => write!(out, "|probe:{}", w).unwrap(),
+                    }
                     break;
                 }
                 Ok(Some(tag)) => {
+                    n += 1;
                     let tp = tag as *const _ as *const u8;
                     let typ = unsafe { (tp as *const u16).read() };
                     let fl = unsafe { (tp as *const u16).add(1).read() };
